@@ -33,9 +33,43 @@ func VerifC28Lock(h *verifrt.H) {
 			cnt++
 			return true
 		})
-		h.Known("C28-lock-queues-never-pruned", "no-per-key-state", true)
 		h.Assert(cnt == 0, "no-per-key-state-left")
-		h.ClearKnown()
+		h.Cover("end")
+	})
+}
+
+// VerifC28Contended: callers contend for ONE key while queues are being retired and dropped:
+// every schedule (preemption-bounded) of `clients` clients doing `rounds` lock/unlock rounds
+// each. The queue of a key is retired whenever its last caller leaves, so a Lock can look up a
+// queue that is retired before it enqueues. Obligations: one holder at a time, every Lock is
+// granted, and at quiescence no per-key state is left. TTL timers do not fire here.
+func VerifC28Contended(h *verifrt.H) {
+	l := New().(*lock)
+	clients, rounds := h.Param("clients", 2), h.Param("rounds", 2)
+	holders, finished := 0, 0
+	names := []string{"A", "B", "C"}
+	for c := 0; c < clients; c++ {
+		h.Go(names[c], func() {
+			for r := 0; r < rounds; r++ {
+				id, err := l.Lock(context.Background(), "k", time.Hour)
+				h.Assert(err == nil, "lock-granted")
+				holders++
+				h.Assert(holders == 1, "one-holder-per-key-across-queue-retirement")
+				h.Yield()
+				holders--
+				h.Assert(l.Unlock("k", id) == nil, "holder-unlock-ok")
+			}
+			finished++
+		})
+	}
+	h.AtQuiescence(func() {
+		h.Assert(finished == clients, "every-client-finished")
+		cnt := 0
+		l.queues.Range(func(k, v any) bool {
+			cnt++
+			return true
+		})
+		h.Assert(cnt == 0, "no-per-key-state-left")
 		h.Cover("end")
 	})
 }
